@@ -489,6 +489,38 @@ gen_c02_scaled (gen_t *g, rng_t *r, scenario_t *sc)
     }
 }
 
+/* the text-rendering shape: a solid colour through a mask (a8, a1, component-alpha 8888)
+ * onto every destination format that has a fast path somewhere; colours from the edges
+ * of the value range, also ones that are not premultiplied (alpha 0 with colour left) */
+static void
+gen_c02_solid_mask (gen_t *g, rng_t *r, scenario_t *sc)
+{
+    static const pixman_format_code_t mf[] = { PIXMAN_a8, PIXMAN_a8, PIXMAN_a1, PIXMAN_a8r8g8b8, PIXMAN_a8b8g8r8, PIXMAN_a4 };
+    static const pixman_format_code_t df[] = { PIXMAN_a8r8g8b8, PIXMAN_x8r8g8b8, PIXMAN_a8b8g8r8, PIXMAN_x8b8g8r8, PIXMAN_r5g6b5, PIXMAN_b5g6r5,
+					       PIXMAN_a8, PIXMAN_r8g8b8, PIXMAN_b8g8r8a8, PIXMAN_a1r5g5b5, PIXMAN_a4r4g4b4, PIXMAN_a1 };
+    static const int64_t edge[] = { 0, 0, 65535, 65535, 0x8000, 0x00ff, 0xff00, 0x0100, 0x7fff, 0xfeff };
+    static const int ops[] = { 3, 3, 3, 12, 12, 1, 8, 5, 4, 6 };    /* OVER x3 ADD x2 SRC OUT_REVERSE IN OVER_REVERSE IN_REVERSE */
+    int i, k, n_req = (int)rng_range (r, 4, 10), fi[2];
+    pixman_format_code_t want[2];
+    sc_set (sc, "chains", 0xffffffffll);
+    want[0] = df[rng_n (r, 12)]; want[1] = mf[rng_n (r, 6)];
+    for (k = 0; k < 2; k++) for (fi[k] = 0; fi[k] < sim_n_formats - 1; fi[k]++) if (sim_formats[fi[k]] == want[k]) break;
+    gen_bits_exact (g, 0, fi[0], gen_pick_size (g, 160), (int)rng_range (r, 1, 5), (int)rng_n (r, 2), rng_chance (r, 1, 6), (int)rng_n (r, 16), 0);
+    gen_bits_exact (g, 3, fi[1], g->s[0].w + (int)rng_n (r, 3), g->s[0].h, (int)rng_n (r, 2), 0, (int)rng_n (r, 16), 0);
+    if (PIXMAN_FORMAT_RGB (want[1]) && rng_chance (r, 2, 3)) { int64_t a[5] = { 0, 0, 0, 3, 1 }; sc_addv (sc, MOP_SET_COMPONENT_ALPHA, 5, a); }
+    for (i = 0; i < n_req; i++)
+    {
+	int slot = 4 + (i % 4);
+	int64_t c[8] = { 0, 0, 0, slot, edge[rng_n (r, 10)], edge[rng_n (r, 10)], edge[rng_n (r, 10)], edge[rng_n (r, 10)] };
+	if (rng_chance (r, 1, 3)) { c[5] = rng_range (r, 0, 65535); c[6] = rng_range (r, 0, 65535); c[7] = rng_range (r, 0, 65535); }
+	if (g->s[slot].used) gen_unref (g, slot);
+	sc_addv (sc, MOP_SOLID, 8, c);
+	g->s[slot].used = 1; g->s[slot].kind = MOP_SOLID; g->s[slot].w = g->s[slot].h = 1; g->s[slot].refs = 1; g->s[slot].has_alpha = -1;
+	gen_composite (g, 0, slot, rng_chance (r, 5, 6) ? 3 : -1, 0);
+	sc->ops[sc->n_ops - 1].a[M_PREFIX] = ops[rng_n (r, 10)];
+    }
+}
+
 static void
 gen_c02 (gen_t *g, rng_t *r, scenario_t *sc)
 {
@@ -792,8 +824,12 @@ generate (uint64_t seed, int tier, const char *property, scenario_t *sc)
 	}
     }
     else if (property && !strcmp (property, "C19")) gen_c19 (&g, &r, sc);
-    else if (rng_chance (&r, 1, 4)) gen_c02_scaled (&g, &r, sc);
-    else gen_c02 (&g, &r, sc);
+    else switch (rng_n (&r, 8))
+    {
+    case 0: case 1: gen_c02_scaled (&g, &r, sc); break;
+    case 2: gen_c02_solid_mask (&g, &r, sc); break;
+    default: gen_c02 (&g, &r, sc); break;
+    }
 }
 
 static const world_t world = { "cfg", mop_names, MOP_N, generate, execute, chains_init };
